@@ -390,4 +390,274 @@ theorem phase_tagPart (h : Hdr) (L : Layout) (hL : WfLayout L) (r : SPart) (hr :
     simp [hnd]
 
 
+/-! ### the whole body -/
+
+theorem descBlock_trimmed (ds : List Str) (hne : ds ≠ []) (hw : ∀ l ∈ ds, wfDescLine l = true) :
+    Trimmed (join ['\n'] ds) :=
+  join_lf_trimmed ds hne (fun l hl => (wfDescLine_spec (hw l hl)).1)
+
+/-- the block while the body is being read: everything fixed by the identifier and parameter lines,
+    the description and tags collected so far -/
+def blkMid (h : Hdr) (b : SBlock) (n : Nat) (desc : Option Str) (tags : List (Str × PartM)) : BlockM :=
+  { name := b.name, line := h.line, annotations := b.anns, annsLine := if b.anns.isEmpty then none else some (n + 1),
+    params := paramRaws b.params (n + 2), description := desc, tags := tags, codeBefore := h.codeBefore,
+    codeAfter := h.codeAfter, indentation := [] }
+
+/-- what the clean-up makes of the description collected so far (`extra`: the empty line before the tags) -/
+theorem finish_desc (b : SBlock) (hb : WfSBlock b) (extra : Bool) :
+    stripDescription (if b.desc.isEmpty then none else
+              if extra then some (join ['\n'] b.desc ++ ['\n']) else some (join ['\n'] b.desc)) =
+      (if b.desc.isEmpty then none else some (join ['\n'] b.desc)) := by
+  unfold stripDescription
+  cases hds : b.desc with
+  | nil => rfl
+  | cons d ds =>
+    have htr := descBlock_trimmed (d :: ds) (by simp) (fun l hl => hb.desc l (by rw [hds]; exact hl))
+    have hne : (join ['\n'] (d :: ds)).isEmpty = false := by
+      cases hj : join ['\n'] (d :: ds) with
+      | nil => exact absurd hj htr.ne_nil
+      | cons _ _ => rfl
+    cases extra with
+    | true => simp [strip_append_lf htr]
+    | false => simp [hne, strip_trimmed htr]
+
+theorem replicate_body (x : Str) (a c k : Nat) :
+    [x] ++ List.replicate a x ++ List.replicate c x ++ List.replicate k x = List.replicate (1 + a + c + k) x := by
+  rw [show [x] = List.replicate 1 x from rfl]
+  simp only [List.replicate_append_replicate]
+
+/-- the state machine over every laid-out body of a block of the grammar -/
+theorem lineLoop_body (L : Layout) (hL : WfLayout L) (b : SBlock) (hb : WfSBlock b) (n : Nat) (h : Hdr)
+    (hh : h = { line := n, codeBefore := [], codeAfter := [] }) :
+    ∃ st, lineLoop h ((bodyOf b).map (layLine L)) n BSt.init = .ok st ∧ st.diags = [] ∧
+      finishBlock st = some (blockImage b n (List.replicate (bodyOf b).length L.indent)) := by
+  unfold bodyOf
+  simp only [List.map_cons, List.map_append, List.append_assoc, List.cons_append, List.map_map]
+  rw [lineLoop]
+  -- the identifier line
+  have e1 : lineStep h BSt.init (n + 1) (layLine L (identLine b.name b.anns)) =
+      .ok { block := some (blkMid h { b with params := [] } n none []), identWarned := false, blockIndent := [L.indent],
+            partIndent := some 0, inPart := some .ident, cur := none, returnsSeen := false, diags := [] } := by
+    rw [lineStep_lay h BSt.init (n + 1) L hL (identLine b.name b.anns)]
+    exact lineBody_ident h { BSt.init with blockIndent := BSt.init.blockIndent ++ [L.indent] } (n + 1)
+      (colOf L (identLine b.name b.anns)) (layLine L (identLine b.name b.anns)) b.name b.anns hb.name hb.notSA hb.anns rfl
+  rw [e1]
+  simp only []
+  -- the parameters
+  rw [lineLoop_append]
+  obtain ⟨st2, hl2, hc2, hin2⟩ := phase_params h L hL b.params (n + 1)
+    { block := some (blkMid h { b with params := [] } n none []), identWarned := false, blockIndent := [L.indent],
+      partIndent := some 0, inPart := some .ident, cur := none, returnsSeen := false, diags := [] }
+    (blkMid h { b with params := [] } n none []) [L.indent] ⟨rfl, rfl, rfl, rfl, rfl⟩ (Or.inl rfl) hb.params hb.nodup
+    (fun _ _ => rfl)
+  have hc2' : Clean st2 (blkMid h b n none []) ([L.indent] ++ List.replicate b.params.length L.indent) := hc2
+  have hcomp : (layLine L ∘ paramLine) = (fun p => layLine L (paramLine p)) := rfl
+  rw [hcomp, hl2]
+  simp only [List.length_map]
+  -- the description
+  rw [lineLoop_append]
+  obtain ⟨st3, hl3, hc3, hin3⟩ := phase_descPart h L hL b.desc (n + 1 + b.params.length) st2 _ _ hc2' hin2 rfl hb.desc
+  have hc3' : Clean st3 (blkMid h b n (if b.desc.isEmpty then none else some (join ['\n'] b.desc)) [])
+      ([L.indent] ++ List.replicate b.params.length L.indent ++
+        List.replicate (if b.desc.isEmpty = true then [] else [] :: b.desc).length L.indent) := hc3
+  rw [hl3]
+  simp only [List.length_map]
+  have harith : ∀ a c k : Nat, 1 + a + c + k = a + (c + k) + 1 := by intros; omega
+  cases hr : b.returns with
+  | none =>
+    simp only [List.map_nil, lineLoop]
+    refine ⟨st3, rfl, hc3'.diags, ?_⟩
+    unfold finishBlock
+    rw [hc3'.block]
+    have h0 := replicate_body L.indent b.params.length (if b.desc.isEmpty = true then [] else [] :: b.desc).length 0
+    simp only [List.replicate_zero, List.append_nil] at h0
+    have hd0 := finish_desc b hb false
+    simp only [Bool.false_eq_true, if_false] at hd0
+    simp only [blkMid, hc3'.blockIndent, h0, blockImage, hr, hh, List.map_nil,
+      paramRaws_clean b.params (n + 2) hb.params, List.length_cons, List.length_append, List.length_map, List.length_nil]
+    rw [hd0, harith]
+  | some r =>
+    have hrb := hb.returns r hr
+    have hnm : (partRaw (str Gen.tagReturns) r (n + linesBeforeTags b + 2)).name = str Gen.tagReturns := rfl
+    cases hde : b.desc.isEmpty with
+    | true =>
+      simp only [hde, if_true, List.length_nil, Nat.add_zero, List.nil_append] at hin3 hc3' ⊢
+      have hnd : st3.inPart ≠ some .desc := by rcases hin3 with h | h <;> rw [h] <;> simp
+      obtain ⟨st4, hl4, hd4, hi4, hb4⟩ := phase_tagPart h L hL r hrb (n + 1 + b.params.length) st3 _ _ hc3' (Or.inr hin3)
+      refine ⟨st4, hl4, hd4, ?_⟩
+      unfold finishBlock
+      rw [hb4, hi4]
+      have hln : n + 1 + b.params.length + 2 = n + linesBeforeTags b + 2 := by simp [linesBeforeTags, hde]; omega
+      have h2 := replicate_body L.indent b.params.length 0 2
+      rw [show [L.indent, L.indent] = List.replicate 2 L.indent from rfl, h2, hln]
+      simp only [hnd, if_false, setTag, hnm, blkMid, assocSet, List.map_cons, List.map_nil, blockImage, hr, hh, hde,
+        if_true, paramRaws_clean b.params (n + 2) hb.params, cleanDescription_raw _ r _ hrb, List.length_cons,
+        List.length_append, List.length_map, List.length_nil]
+      rw [harith]
+      rfl
+    | false =>
+      simp only [hde, Bool.false_eq_true, if_false, List.length_cons] at hin3 hc3' ⊢
+      obtain ⟨st4, hl4, hd4, hi4, hb4⟩ := phase_tagPart h L hL r hrb (n + 1 + b.params.length + (b.desc.length + 1)) st3 _ _
+        hc3' (Or.inl hin3)
+      refine ⟨st4, hl4, hd4, ?_⟩
+      unfold finishBlock
+      rw [hb4, hi4]
+      have hln : n + 1 + b.params.length + (b.desc.length + 1) + 2 = n + linesBeforeTags b + 2 := by
+        simp [linesBeforeTags, hde]; omega
+      have h2 := replicate_body L.indent b.params.length (b.desc.length + 1) 2
+      have hd1 := finish_desc b hb true
+      simp only [hde, Bool.false_eq_true, if_false, if_true] at hd1
+      rw [show [L.indent, L.indent] = List.replicate 2 L.indent from rfl, h2, hln]
+      simp only [hin3, if_true, appendDesc, setTag, hnm, blkMid, assocSet, List.map_cons, List.map_nil, blockImage, hr, hh,
+        hde, Bool.false_eq_true, if_false, paramRaws_clean b.params (n + 2) hb.params, cleanDescription_raw _ r _ hrb,
+        List.length_cons, List.length_append, List.length_map, List.length_nil]
+      rw [hd1, harith]
+
+
+/-! ### the whole comment -/
+
+theorem bodyOf_noBreak (b : SBlock) (hb : WfSBlock b) : ∀ l ∈ bodyOf b, NoBreak l := by
+  intro l hl
+  unfold bodyOf at hl
+  rw [List.append_assoc, List.cons_append] at hl
+  rcases List.mem_cons.mp hl with heq | hl2
+  · rw [heq]
+    unfold identLine
+    split
+    · exact noBreak_append (wfWord_noBreak hb.name) (noBreak_cons (by decide) noBreak_nil)
+    · exact noBreak_append (wfWord_noBreak hb.name) (noBreak_cons (by decide) (noBreak_cons (by decide)
+        (serializeAnnotations_noBreak b.anns (wfAnns_spec hb.anns).1)))
+  rcases List.mem_append.mp hl2 with hp' | hl3
+  · obtain ⟨p, hp, rfl⟩ := List.mem_map.mp hp'
+    obtain ⟨hw, _, _, hbody⟩ := wfParam_spec (hb.params p hp)
+    exact noBreak_cons (by decide) (noBreak_append (wfWord_noBreak hw) (noBreak_cons (by decide) (partTail_noBreak p hbody)))
+  rcases List.mem_append.mp hl3 with hd | hr
+  · split at hd
+    · cases hd
+    · rcases List.mem_cons.mp hd with rfl | h
+      · exact noBreak_nil
+      · exact (wfDescLine_spec (hb.desc l h)).2.1
+  · cases hret : b.returns with
+    | none => rw [hret] at hr; cases hr
+    | some r =>
+      rw [hret] at hr
+      simp only [List.mem_cons, List.mem_nil_iff, or_false] at hr
+      rcases hr with rfl | rfl
+      · exact noBreak_nil
+      · exact noBreak_append (wfWord_noBreak (by decide +kernel)) (noBreak_cons (by decide)
+          (partTail_noBreak r (hb.returns r hret)))
+
+theorem ws_noBreak {s : Str} (h : ∀ x ∈ s, isSpace x = true ∧ x ≠ '\r' ∧ x ≠ '\n') : NoBreak s :=
+  fun x hx => (h x hx).2
+
+theorem layLine_noBreak (L : Layout) (hL : WfLayout L) {l : Str} (h : NoBreak l) : NoBreak (layLine L l) := by
+  unfold layLine
+  split
+  · exact noBreak_append (ws_noBreak hL.indent) (noBreak_cons (by decide) noBreak_nil)
+  · exact noBreak_append (ws_noBreak hL.indent) (noBreak_cons (by decide) (noBreak_cons hL.sp.2 h))
+
+/-- **parse ∘ render**: every layout of the writer's lines for a block of the grammar parses, without any
+    diagnostic, to exactly the block's image (with the layout's indentation recorded for every body line) -/
+theorem parseBlock_render (L : Layout) (hL : WfLayout L) (b : SBlock) (hb : WfSBlock b) (n : Nat) (inds0 : List Str) :
+    parseBlock (render L (blockImage b n inds0)) n =
+      .ok (some (blockImage b n (List.replicate (bodyOf b).length L.indent)), []) := by
+  unfold parseBlock render renderLines
+  rw [bodyLines_image b n inds0 hb, List.cons_append]
+  have hnb : ∀ l ∈ (L.startIndent ++ str "/**") :: ((bodyOf b).map (layLine L) ++ [L.endIndent ++ str "*/"]), NoBreak l := by
+    intro l hl
+    simp only [List.mem_cons, List.mem_append, List.mem_map, List.mem_nil_iff, or_false] at hl
+    rcases hl with rfl | ⟨x, hx, rfl⟩ | rfl
+    · exact noBreak_append (ws_noBreak hL.startIndent) (by intro c hc; revert c; decide)
+    · exact layLine_noBreak L hL (bodyOf_noBreak b hb x hx)
+    · exact noBreak_append (ws_noBreak hL.endIndent) (by intro c hc; revert c; decide)
+  rw [commentLines_join L.eol hL.eol _ (by simp) hnb]
+  unfold parseBlockLines
+  rw [openBlock_lay L hL _ n]
+  simp only []
+  obtain ⟨st, hl, hd, hf⟩ := lineLoop_body L hL b hb n { line := n, codeBefore := [], codeAfter := [] } rfl
+  have hinit : ({ BSt.init with diags := [] } : BSt) = BSt.init := rfl
+  rw [hinit, hl]
+  simp only [hd, hf]
+
+
+/-! ### the writer -/
+
+theorem mostCommon_fold_same (whole : List Str) (x : Str) : ∀ (m : Nat),
+    (List.replicate m x).foldl (fun best k => match best with
+      | none => some k
+      | some b => if whole.count k > whole.count b then some k else some b) (some x) = some x
+  | 0 => rfl
+  | m + 1 => by simp [List.replicate_succ, mostCommon_fold_same whole x m]
+
+theorem mostCommon_replicate (k : Nat) (x : Str) : mostCommon (List.replicate (k + 1) x) = some x := by
+  unfold mostCommon
+  conv => lhs; arg 3; rw [List.replicate_succ]
+  rw [List.foldl_cons]
+  exact mostCommon_fold_same _ x k
+
+theorem flatten_lines : ∀ (ls : List Str), ls ≠ [] → (ls.map (fun l => l ++ ['\n'])).flatten = join ['\n'] ls ++ ['\n']
+  | [], h => absurd rfl h
+  | [l], _ => by simp [join]
+  | l :: m :: ms, _ => by
+    rw [List.map_cons, List.flatten_cons, flatten_lines (m :: ms) (by simp), join_cons_cons]
+    simp
+
+theorem write_lines (si li : Str) (body : List Str) :
+    ((si ++ str "/**\n") :: body.map (fun l => if l.isEmpty then li ++ ['*', '\n'] else li ++ '*' :: ' ' :: l ++ ['\n'])
+        ++ [li ++ str "*/\n"]).flatten =
+      join ['\n'] ((si ++ str "/**") ::
+        body.map (layLine { startIndent := si, indent := li, endIndent := li, sp := ' ', eol := ['\n'] }) ++ [li ++ str "*/"])
+        ++ ['\n'] := by
+  rw [← flatten_lines _ (by simp)]
+  congr 1
+  simp only [List.cons_append, List.map_cons, List.map_append, List.map_map, List.map_nil]
+  congr 1
+  · simp [str]
+  · congr 1
+    · apply List.map_congr_left
+      intro l _
+      simp only [Function.comp, layLine]
+      split <;> simp
+    · simp [str]
+
+/-- the writer's own text for the image of a block model is that block's rendering in the writer's layout,
+    followed by the final line break -/
+theorem writeBlock_image (b : SBlock) (n : Nat) (k : Nat) (ind : Str) :
+    writeBlock (blockImage b n (List.replicate (k + 1) ind)) =
+      .ok (render (writerLayout ind) (blockImage b n (List.replicate (k + 1) ind)) ++ ['\n']) := by
+  unfold writeBlock writeIndents
+  have hind : (blockImage b n (List.replicate (k + 1) ind)).indentation = List.replicate (k + 1) ind := rfl
+  have hcb : (blockImage b n (List.replicate (k + 1) ind)).codeBefore = [] := rfl
+  have hca : (blockImage b n (List.replicate (k + 1) ind)).codeAfter = [] := rfl
+  rw [hind, mostCommon_replicate, hcb, hca]
+  unfold render renderLines writerLayout
+  cases he : endsWith (if ind.isEmpty then [' '] else ind) ['\t'] with
+  | true => simp only [he, if_true, List.isEmpty_nil]; rw [write_lines]
+  | false => simp only [he, Bool.false_eq_true, if_false, List.isEmpty_nil, if_true]; rw [write_lines]
+
+
+theorem writerLayout_wf (ind : Str) (h : wsString ind = true) : WfLayout (writerLayout ind) := by
+  have hi := wsString_spec h
+  have hsp : isSpace ' ' = true ∧ ' ' ≠ '\r' ∧ ' ' ≠ '\n' := by decide
+  have hindent : ∀ x ∈ (if ind.isEmpty then [' '] else ind), isSpace x = true ∧ x ≠ '\r' ∧ x ≠ '\n' := by
+    intro x hx
+    split at hx
+    · rw [List.mem_singleton.mp hx]; exact hsp
+    · exact hi x hx
+  unfold writerLayout
+  simp only []
+  generalize (if ind.isEmpty then [' '] else ind) = indent at hindent ⊢
+  have hdl : ∀ x ∈ indent.dropLast, x ∈ indent := fun x hx => List.dropLast_subset indent hx
+  cases he : endsWith indent ['\t'] with
+  | true =>
+    simp only [if_true]
+    refine ⟨hindent, ?_, ?_, hsp, Or.inl rfl⟩ <;>
+    · intro x hx
+      rcases List.mem_append.mp hx with h1 | h1
+      · exact hindent x h1
+      · rw [List.mem_singleton.mp h1]; exact hsp
+  | false =>
+    simp only [Bool.false_eq_true, if_false]
+    exact ⟨fun x hx => hindent x (hdl x hx), hindent, hindent, hsp, Or.inl rfl⟩
+
 end GIVerif.AnnParse
